@@ -192,6 +192,22 @@ def parse_rules(ck, pr, ct):
         ck.ob("C15-O1", sitestr(pr, cat_asg), None, "category text is not a single local variable")
         return
     vdecl = skip_copies(mids[0])["decl"]
+    # edits of the category text other than escape + the wildcard translation: dropping characters of it, or adding regular-expression syntax to the
+    # escaped text, makes the rule match categories it does not spell (decided before the ordering analysis, which gives up on branches)
+    edits = []
+    for c_ in pr.calls():
+        if c_.get("ck") in ("member", "operator") and ((isinstance(c_.get("obj"), dict) and is_ref_to(skip_copies(c_["obj"]), vdecl)) or (c_.get("ck") == "operator" and c_.get("args") and is_ref_to(skip_copies(c_["args"][0]), vdecl))):
+            short_ = strip_tmpl(c_.get("callee") or "").split("::")[-1]
+            if short_ in ("chop", "truncate", "remove", "resize"):
+                edits.append((c_, "drops characters of the category text (%s)" % describe(c_)[:40]))
+            elif short_ in ("append", "prepend", "insert", "operator+=", "push_back"):
+                lits_ = [const_str(a_) for a_ in c_.get("args", []) if const_str(a_) is not None]
+                if any(l_ and any(ch in l_ for ch in "()[]?*+|.^$\\") for l_ in lits_):
+                    edits.append((c_, "adds regular-expression syntax %r to the escaped text" % [l_ for l_ in lits_ if l_][0]))
+    if edits:
+        ck.ob("C15-O1", sitestr(pr, edits[0][0]), False, "parseRules %s: the pattern of the rule is no longer the escaped category with '*' -> '.*', so a rule decides categories its text does not match "
+              "(`net.*=false` then also drops the category `net`)" % "; ".join(e_[1] for e_ in edits[:2]), key="parseRules|category-edited")
+        return
     hist = var_history(pr, g, vdecl)
     upto = []
     for e in hist:
